@@ -22,15 +22,20 @@ CONSTANTS H,          \* descriptor handles of the model universe
           CtxOf,      \* CtxOf[c] : the context descriptor a context state handle belongs to
           Removable,  \* handles the drivers may delete (leaves whose real parent is outside the universe are not)
           Tok,        \* content tokens
+          BeginKinds, \* transaction kinds the drivers may open
+          TrackH,     \* the handle whose life-cycle is tracked by trk (test purposes), "none" = no tracking
           MaxTx, MaxOps
 
 VARIABLES m,     \* the MDIB: [D, S, C, mver, lastD, lastS, lastC]
           tx,    \* the open transaction (kind "none" when there is none)
           ntx,   \* number of finished transactions
-          hist   \* emitted behaviour (hidden by VIEW in exhaustive runs)
+          hist,  \* emitted behaviour (hidden by VIEW in exhaustive runs)
+          trk    \* life-cycle word of TrackH: one letter per finished transaction that touched it
+                 \* (A add, D delete, U update, S state update; lower case = aborted)
 
-vars == <<m, tx, ntx, hist>>
+vars == <<m, tx, ntx, hist, trk>>
 view == <<m, tx, ntx>>
+trkview == <<m, tx, ntx, trk>>
 
 Ext == "ext"          \* parent outside the model universe (e.g. the MDS)
 NoneP == "none"
@@ -50,7 +55,7 @@ InitM == [D |-> [h \in H |-> IF InitParent[h] = NoneP THEN NoD
           mver |-> 0,
           lastD |-> [h \in H |-> -1], lastS |-> [h \in H |-> -1], lastC |-> [c \in CH |-> -1]]
 
-Init == m = InitM /\ tx = NoTx /\ ntx = 0 /\ hist = <<>>
+Init == m = InitM /\ tx = NoTx /\ ntx = 0 /\ hist = <<>> /\ trk = <<>>
 
 \* ------------------------------------------------------------------ helpers
 Idx(seq, key, v) == IF \E i \in 1..Len(seq) : seq[i][key] = v
@@ -59,7 +64,15 @@ InD(h) == Idx(tx.d, "h", h) # 0
 InS(h) == Idx(tx.s, "h", h) # 0
 InC(c) == Idx(tx.c, "c", c) # 0
 Open(k) == tx.kind = k /\ tx.nops < MaxOps
-Log(rec) == hist' = Append(hist, rec)
+TrkLetter == IF \E i \in 1..Len(tx.d) : tx.d[i].h = TrackH
+             THEN LET it == tx.d[CHOOSE i \in 1..Len(tx.d) : tx.d[i].h = TrackH]
+                  IN CASE it.op = "crt" -> "A" [] it.op = "del" -> "D" [] OTHER -> "U"
+             ELSE IF \E i \in 1..Len(tx.s) : tx.s[i].h = TrackH THEN "S" ELSE "-"
+Lower(x) == CASE x = "A" -> "a" [] x = "D" -> "d" [] x = "U" -> "u" [] x = "S" -> "s" [] OTHER -> x
+Log(rec) == /\ hist' = Append(hist, rec)
+            /\ trk' = IF TrackH # "none" /\ rec.act \in {"Commit", "Abort"} /\ TrkLetter # "-"
+                      THEN Append(trk, IF rec.act = "Commit" THEN TrkLetter ELSE Lower(TrkLetter))
+                      ELSE trk
 Op(t) == [t EXCEPT !.nops = @ + 1]
 NextVer(last) == IF last >= 0 THEN last + 1 ELSE 0
 StateKind(h) == Kind[h]
@@ -375,7 +388,7 @@ MutateCopy(src, t) == /\ tx.kind = "none" /\ ntx > 0 /\ ntx < MaxTx
                       /\ Log([act |-> "MutateCopy", src |-> src, t |-> t, res |-> "ok"])
 
 Next == \/ \E src \in {"getter", "entity", "result"}, t \in Tok : MutateCopy(src, t)
-        \/ \E k \in TxKinds : Begin(k)
+        \/ \E k \in BeginKinds : Begin(k)
         \/ Abort \/ Commit
         \/ \E h \in H : SGet(h) \/ SUnget(h) \/ DGet(h) \/ DRemove(h) \/ DGetState(h)
         \/ \E h \in H, t \in Tok : SetSTok(h, t) \/ SetDTok(h, t) \/ SWriteEntity(h, t) \/ DWriteEntity(h, t)
@@ -427,4 +440,7 @@ TypeOK == /\ m.mver \in Nat /\ ntx \in 0..MaxTx
 \* ------------------------------------------------------------------ behaviour emission
 Done == tx.kind = "none" /\ ntx = MaxTx
 EmitDone == Done => PrintT(<<"BEH", ToJson(hist)>>)
+\* test purposes: breadth-first search prints the (shortest) history of every state between two transactions;
+\* the driver keeps the first history per life-cycle word
+EmitTrk == (tx.kind = "none" /\ Len(trk) > 0) => PrintT(<<"TRK", trk, ToJson(hist)>>)
 =============================================================================
